@@ -2128,3 +2128,38 @@ def r8_13(rep):
                       "DerivableTraits::%s is granted without asking `can_derive_%s` or `options.%s`: the user's switch for the trait is ignored here"
                       % (tr, tr.lower(), opt), b.loc(a))
     rep.need(n >= 9, "`derivable_traits |= DerivableTraits::X` sites")
+
+
+@RULES.rule("R8.14", "the hand-written Debug impl never formats a value built from a type nobody vouched for", floor=2)
+def r8_14(rep):
+    """`Item::impl_debug` leaves a field out when its own type is not allowlisted ("we don't know if blocklisted items impl Debug").
+    An array is allowlisted as an item even when its ELEMENT type is blocklisted: `struct S { struct Blocked arr[3]; }` with
+    `--blocklist-type Blocked --impl-debug` formats `self.arr` with `{:?}`, which needs `Blocked: Debug` (E0277 against the user's
+    `pub struct Blocked(u32);`).  The array arm has to ask the same question of the element."""
+    from hir import pat_variants as _pv
+    prog = rep.prog
+    b = rep.need(prog.impl_fn("codegen::impl_debug::ImplDebug", "ir::item::Item", "impl_debug") or
+                 next((x for p, x in prog.bodies.items() if p.endswith("::impl_debug") and "ir::item::Item" in p), None), "<Item as ImplDebug>::impl_debug")
+    gate = [c for c in b.calls(lambda n: n["k"] == "MCall" and n["name"] == "contains") if "allowlisted_items" in b.canon(c["recv"], 4)]
+    rep.check(bool(gate), "debug-skips-unvouched-item", "a field whose own type is not allowlisted is left out", b.loc(b.root))
+    ms = [m for m in b.nodes if m["k"] == "Match" and (b.ty(m["scrut"]) or "").replace("&", "").endswith("TypeKind")]
+    rep.need(ms, "match on the type kind in Item::impl_debug")
+    for a in ms[0]["arms"]:
+        if not any(v.endswith("TypeKind::Array") for v in _pv(a["pat"])):
+            continue
+        elem_ids = set()
+
+        def binds(p_):
+            if p_.get("k") == "Bind":
+                elem_ids.add(p_["id"])
+            for q in p_.get("ps", []):
+                binds(q)
+        binds(a["pat"])
+        asks = [c for c in b.calls(None, a["body"]) if c["k"] in ("MCall", "Call") and
+                (c.get("name") in ("impl_debug", "contains") or "impl_debug" in str(c.get("callee") or "")) and
+                any(y["k"] == "Local" and (y["id"] in elem_ids or (b.local_init(y["id"]) is not None and
+                                                               any(z["k"] == "Local" and z["id"] in elem_ids for z in b.walk(b.local_init(y["id"])))))
+                    for y in b.walk(c))]
+        rep.check(bool(asks), "debug-array-asks-element", "the array arm asks whether the element type can be formatted" if asks else
+                  "the array arm formats `self.<field>` without looking at the element type: an array of a blocklisted type needs `Blocked: Debug`",
+                  b.loc(a["body"]))
